@@ -22,13 +22,13 @@ Definition touched (c : cond) : cond :=
 Lemma facts_touch c : touch_cond facts c = touched c.
 Proof. reflexivity. Qed.
 
-(* save: get_conditions works on copies, the solver is left alone whether or not dill.dump
+(* save: get_conditions works on copies and no call on the save path (save itself, the preview
+   helpers run under torch.random.fork_rng, get_generator, get_networks, ...) draws from the
+   solver's generators or advances a global RNG: the solver is left alone whether or not dill.dump
    then succeeds; the file holds the solver's objects as they are *)
 Lemma facts_save s ok : save facts s ok = (s, if ok then Some (mkfile facts s) else None).
-Proof. destruct s as [k n o th vh lo be co li np eq [a b c d u]]. destruct k; reflexivity. Qed.
+Proof. destruct s as [k n o th vh lo be co li np eq [a b c d u st]]. destruct k, st; reflexivity. Qed.
 
-(* no call on the save path (save itself, the preview helpers, get_generator, get_networks, ...)
-   draws from the solver's generators or advances a global RNG, for any solver kind *)
 Lemma facts_no_effects : sf_effects facts = [].
 Proof. reflexivity. Qed.
 
@@ -38,10 +38,10 @@ Definition after_load (s : state) : state :=
   mkState (kind s) (nets s) (opt s) (train_hist s) (valid_hist s) (lowest s) (best s) (conds s) (loss_id s)
           (match kind s with KBundle => n_params s | _ => 0 end)
           (match kind s with KBundle => seq 0 (n_params s) :: eqs s | _ => eqs s end)
-          (mkEnv (drawn_train (env s)) (drawn_valid (env s)) 0 0 0).
+          (mkEnv (drawn_train (env s)) (drawn_valid (env s)) 0 0 0 (stochastic (env s))).
 
 Lemma facts_load s : load facts (mkfile facts s) = Some (after_load s).
-Proof. destruct s as [k n o th vh lo be co li np eq [a b c d u]]. destruct k; vm_compute; reflexivity. Qed.
+Proof. destruct s as [k n o th vh lo be co li np eq [a b c d u st]]. destruct k; vm_compute; reflexivity. Qed.
 
 Lemma save_load s f : snd (save facts s true) = Some f -> load facts f = Some (after_load s).
 Proof. rewrite facts_save. cbn [snd]. intros H. inversion H. apply facts_load. Qed.
@@ -131,7 +131,7 @@ Proof. now rewrite !save_preserves. Qed.
 Lemma save_preserves_if_copy sf s ok : sf_aliased sf = false -> sf_effects sf = [] -> fst (save sf s ok) = s.
 Proof.
   intros H He. unfold save, save_env, count_effect, count_unknown. rewrite H, He.
-  destruct s as [k n o th vh lo be co li np eq [a b c d u]]. reflexivity.
+  destruct s as [k n o th vh lo be co li np eq [a b c d u st]]. destruct st; reflexivity.
 Qed.
 
 (* the descriptive copy that goes into diff_equation_details is still the rewritten dictionary *)
@@ -320,7 +320,7 @@ Qed.
 (* ------------------------------------------------------------------ non-vacuity *)
 Definition demo_cond : cond := mkCond 3 [("t_0"%string, ANum 0 1); ("u_0"%string, ANum 1 2); ("u_0_prime"%string, ANone)].
 Definition demo : state := mkState K1D [11%Z] 5%Z [(3#1)%Q; (2#1)%Q] [(4#1)%Q; (1#1)%Q] (Some (1#1)%Q) (Some [11%Z]) [demo_cond] 0 0 []
-                                   (mkEnv 2 2 0 0 0).
+                                   (mkEnv 2 2 0 0 0 false).
 
 Example demo_premises : tracks demo /\ exists f, snd (save facts demo true) = Some f.
 Proof.
@@ -335,12 +335,12 @@ Qed.
 Example demo_roundtrip :
   run_ops facts demo [OSave false; OSaveLoad; OFit [mkEpoch (1#2)%Q (3#1)%Q [12%Z] 6%Z (1, 1)]; OSaveLoad]
   = Some (mkState K1D [12%Z] 6%Z [(3#1)%Q; (2#1)%Q; (1#2)%Q] [(4#1)%Q; (1#1)%Q; (3#1)%Q] (Some (1#1)%Q) (Some [11%Z])
-            [demo_cond] 0 0 [] (mkEnv 3 3 0 0 0)).
+            [demo_cond] 0 0 [] (mkEnv 3 3 0 0 0 false)).
 Proof. vm_compute. reflexivity. Qed.
 
 (* a bundle solver routing bundle parameter 1 of 2 into its equation and using a custom loss *)
 Example demo_bundle :
-  let sb := mkState KBundle [7%Z] 5%Z [] [] None None [] 2 2 [[1]] (mkEnv 0 0 0 0 0) in
+  let sb := mkState KBundle [7%Z] 5%Z [] [] None None [] 2 2 [[1]] (mkEnv 0 0 0 0 0 true) in
   trainable sb = true /\
   exists l, run_ops facts sb [OSaveLoad; OSaveLoad] = Some l /\ trainable l = true /\ loss_id l = 2
             /\ select (eqs l) [10; 20] = Some [20] /\ select (eqs sb) [10; 20] = Some [20].
